@@ -70,16 +70,16 @@ PROPS = {
     "C02": _p("proof", "missing => MISSING (or UNKNOWN where undefined) and MISSING only when a needed value is missing, as postconditions at a Skolem index of the real functions (rate_of_change_test also for stamps in any order)", [T_GEOD, T_ROLL, T_STAT]),
     "C03": _p("proof", "every obligation generated from the real gross_range_test / valid_range_test is discharged for symbolic length, contents, spans and all inclusivity settings"),
     "C04": _p("proof", "qartod_compare: five priorities unrolled, inner loop over a symbolic number of vectors cut by the invariant result[i] = ite(exists q<j. hit(q,i,p), p, roll-up of lower priorities); lemmas: never better than the worst input, permutation, duplication, grouping; aggregate() through the callee contract", assumptions=["PandasStore.compute_aggregate: verified under C19"]),
-    "C05": _p("other", "deductive: NumpyStream.run (array and dict input), PandasStream.run (RangeIndex and arbitrary unique labels) and the real Call.run / Config parsing under them, for the configuration shapes of contracts/streams.py with symbolic table length, contents, time axis (also with missing stamps, NaT: a missing stamp lies in no bounded window) and window bounds: every argument handed to a (probe) test is the base column filtered by exactly the window predicate start <= t < end, the yielded ContextResult carries that predicate, the column and the probe's return value. bounded: Call.run exhaustively over a key universe; all five front ends incl. NetcdfStream, XarrayStream and QcConfig.run against the direct call on concrete tables", ["pandas DataFrame / Series as (columns, row-selection predicate) (pyvc/tablemodel.py)", "test functions as probes: flags are an uninterpreted function of (test, row); equality with the direct call then follows from equality of the arguments (determinism of the real tests: C01)"], assumptions=["configuration structure enumerated over the shapes in contracts/streams.py SHAPES (bounded), data dimension symbolic", "XarrayStream and NetcdfStream only in the bounded differential (xarray internals, private map_index_queries)"], bounded=["CallRun: 16 x 16 keyword sets x 3 callee behaviours (exhaustive over the universe)", "FrontEnds: 5 front ends x 4 tables x 6 windows"]),
+    "C05": _p("other", "deductive: NumpyStream.run (array and dict input), PandasStream.run (RangeIndex and arbitrary unique labels) and the real Call.run / Config parsing under them, for the configuration shapes of contracts/streams.py with symbolic table length, contents, time axis (also with missing stamps, NaT: a missing stamp lies in no bounded window) and window bounds: every argument handed to a (probe) test is the base column filtered by exactly the window predicate start <= t < end, the yielded ContextResult carries that predicate, the column and the probe's return value. bounded: Call.run exhaustively over a key universe; all five front ends incl. NetcdfStream, XarrayStream and QcConfig.run against the direct call on concrete tables", ["pandas DataFrame / Series as (columns, row-selection predicate) (pyvc/tablemodel.py)", "test functions as probes: flags are an uninterpreted function of (test, row); equality with the direct call then follows from equality of the arguments (determinism of the real tests: C01)"], assumptions=["configuration structure enumerated over the shapes in contracts/streams.py SHAPES (bounded), data dimension symbolic", "XarrayStream and NetcdfStream only in the bounded differential (xarray internals, private map_index_queries)"], bounded=["CallRun: 16 x 16 keyword sets x 3 callee behaviours (exhaustive over the universe)", "FrontEnds: 5 front ends x 4 tables x 6 windows; histories: configuration edited after a run; naive datetime bounds in a process whose local time zone is not UTC"]),
     "C18": _p("other", "deductive: the 'faults' configuration shape (a raising test, an unknown test name, an unknown module, an absent stream id, a test whose required inputs the stream does not supply) on NumpyStream / PandasStream with symbolic tables: the healthy calls yield exactly what they yield alone (per-yield postcondition of C05, which mentions no other call), failing entries yield no CallResult, nothing raises, argument buffers are not written; collect_results tolerates ContextResults without results (C06 cases with has=False). bounded: Call.run returns [] on any Exception and hands the callee deep copies (exhaustive over the key universe)", ["as C05, C06"], bounded=["CallRun, FrontEnds as in C05"]),
     "C07": _p("other", "bounded: generated configurations (1-2 contexts, 1-2 streams, qartod/argo/axds tests with scalar/list parameters, windows, sprinkled unknown module and test names) in every layout that can express them (contexts list, single context, bare stream mapping, bare module mapping) x 8 carriers (dict, OrderedDict, YAML text, JSON text, StringIO, str path to YAML, Path to JSON, xarray Dataset attribute) on the real Config: the calls (stream, module, test, parameters, window) equal the statement's. deductive: utils.dict_depth (recursive contract over a ghost mapping); the ContextConfig skipping of unknown names runs for real inside the C05/C18 stream proofs. The content of this property is the round trip through the YAML / JSON / xarray libraries, which no contract within reach expresses - hence mostly bounded", ["ruamel.yaml, json, xarray attribute round trips (exercised, not modelled)"], bounded=["14 generated configurations (quick) / 82 (thorough) x up to 4 layouts x 8 carriers"]),
     "C06": _p("proof", "collect_results_list / collect_results_dict on a symbolic number of ContextResults over n rows: the loop is cut with the invariant 'mask(i) <=> no processed result context covers i; covered rows hold that context's flag and the source columns', the prior state being an arbitrary one (absent key, accumulators, or the arrays of an earlier all-covering context). Context arrays are selections (base column, window predicate), so no rank arithmetic is needed. Order independence for disjoint windows: the postcondition does not mention the order", ["ContextResults as produced by the streams: arrays are the selections of full columns by subset_indexes, at most one CallResult per ContextResult, not writable"], assumptions=["cut cases: all contexts of the run under consideration share one (stream, module, test) key (CollectMulti: two tests per context, two concrete contexts, symbolic rows / windows / flags); entries of other keys are untouched because a dict entry is reached only through its key (Python dict semantics) and keys of different triples differ", "windows of contexts with a result are pairwise disjoint (the statement's premise)"], bounded=["CollectEndToEnd: the real NumpyStream / PandasStream (default, permuted and offset row labels) + the real collect_results on 2 tables x 6 window layouts (two-sided, touching, open-ended in both listing orders, ending-only); flags compared with the direct call on each window"]),
-    "C19": _p("other", "deductive: cf_safe_name over z3 strings (position-wise: only safe characters, never a leading digit, safe characters kept) with re.match/re.sub as point-wise contracts; column_from_collected_result against the label specification; PandasStore.save with the result loop cut: one arbitrary iteration from an arbitrary frame adds exactly the columns the statement names (axes iff write_axes and absent and non-empty, data iff kept and write_data, the result column iff kept and its name is free; include/exclude as uninterpreted membership) for all 16 filter/flag settings; compute_aggregate appends aggregate(all results). bounded: uniqueness of the column per result on concrete stream ids", ["pandas DataFrame as an ordered map name -> column (membership, item assignment)", "re.match / re.sub on single-character classes (ASCII)"], assumptions=["the induction from 'one arbitrary iteration adds the stated columns' to the whole frame is the loop-cut meta-argument (the body reads only the frame and its own result)", "row alignment of the columns is inherited from collect_results (C06)"], bounded=["StoreUnique: 21 pairs of stream ids x 2 test sets on the real PandasStore.save", "StoreFilter: 8 x 8 include / exclude lists on hand-built results", "StoreEndToEnd: the frame saved for a run of the real front ends (4 front end / row label variants x window x write_data x write_axes x roll-up, and 6 include / exclude lists x 3 write settings with the roll-up) against the direct calls"]),
-    "C20": _p("other", "deductive: evaluate_stack against the value of a ghost expression tree, per constructor with the recursive calls bound to the contract (induction on depth), for an arbitrary stack prefix - hence independent of the never-cleared module stack; eval_fx relative to the grammar contract; _validate_fx token loop (stateless cut) against the statement's token classes over z3 strings. bounded: the pyparsing grammar itself (combinators built at run time) against ordinary arithmetic on generated expressions with failing parses in between", ["pyparsing grammar BNF(): contract 'parseString appends the postfix form' (bounded check)", "builtins.float(str): parsability and value uninterpreted; character classes ASCII"], assumptions=["QcConfigCreator.create_config (xarray + scipy CubicSpline over climatology files): no contract within reach expresses the interpolation; this part of C20 is decided by a bounded check only"], bounded=["grammar: expressions of depth <= 1 (quick) / 2 (thorough) over 3 literals, 4 statistics, + - * /, unary minus, parentheses; histories of 1-2 earlier evaluations incl. failing parses; 10 spellings of numbers that float() reads (bare trailing point, exponent forms, leading zeros) alone and in 5 expression patterns", "create_config: 4 synthetic climatologies constant in time (4x5 grid, written as netCDF3 and read back by the real code) x 8 bounding boxes (edges on and between grid lines, single cell, whole grid) x 2 (quick) / 3 (thorough) date ranges; spans compared with the expressions on numpy min/max/mean/std of the cells inside the box"]),
+    "C19": _p("other", "deductive: cf_safe_name over z3 strings (position-wise: only safe characters, never a leading digit, safe characters kept) with re.match/re.sub as point-wise contracts; column_from_collected_result against the label specification; PandasStore.save with the result loop cut: one arbitrary iteration from an arbitrary frame adds exactly the columns the statement names (axes iff write_axes and absent and non-empty, data iff kept and write_data, the result column iff kept and its name is free; include/exclude as uninterpreted membership) for all 16 filter/flag settings; compute_aggregate appends aggregate(all results). bounded: uniqueness of the column per result on concrete stream ids", ["pandas DataFrame as an ordered map name -> column (membership, item assignment)", "re.match / re.sub on single-character classes (ASCII)"], assumptions=["the induction from 'one arbitrary iteration adds the stated columns' to the whole frame is the loop-cut meta-argument (the body reads only the frame and its own result)", "row alignment of the columns is inherited from collect_results (C06)"], bounded=["StoreUnique: 21 pairs of stream ids x 2 test sets on the real PandasStore.save", "StoreFilter: 8 x 8 include / exclude lists on hand-built results, 7 x 7 with stream ids / test names made of glob metacharacters", "StoreEndToEnd: the frame saved for a run of the real front ends (4 front end / row label variants x window x write_data x write_axes x roll-up, and 6 include / exclude lists x 3 write settings with the roll-up) against the direct calls"]),
+    "C20": _p("other", "deductive: evaluate_stack against the value of a ghost expression tree, per constructor with the recursive calls bound to the contract (induction on depth), for an arbitrary stack prefix - hence independent of the never-cleared module stack; eval_fx relative to the grammar contract; _validate_fx token loop (stateless cut) against the statement's token classes over z3 strings. bounded: the pyparsing grammar itself (combinators built at run time) against ordinary arithmetic on generated expressions with failing parses in between", ["pyparsing grammar BNF(): contract 'parseString appends the postfix form' (bounded check)", "builtins.float(str): parsability and value uninterpreted; character classes ASCII"], assumptions=["QcConfigCreator.create_config (xarray + scipy CubicSpline over climatology files): no contract within reach expresses the interpolation; this part of C20 is decided by a bounded check only"], bounded=["grammar: expressions of depth <= 1 (quick) / 2 (thorough) over 3 literals, 4 statistics, + - * /, unary minus, parentheses; histories of 1-2 earlier evaluations incl. failing parses; 10 spellings of numbers that float() reads (bare trailing point, exponent forms, leading zeros) alone and in 5 expression patterns; 4 expressions x 4 earlier evaluations on other statistics (same numbers under other names, other order, one value changed)", "create_config: 4 synthetic climatologies constant in time (4x5 grid, written as netCDF3 and read back by the real code) x 8 bounding boxes (edges on and between grid lines, single cell, whole grid) x 2 (quick) / 3 (thorough) date ranges; spans compared with the expressions on numpy min/max/mean/std of the cells inside the box"]),
     "C15": _p("other", "deductive: every QC test executed with opaque input carriers - obligation carrier-opaque (the test touches its data inputs only through np.array(.) and its time input only through mapdates(.)), so its flags are a function of the normalised series; bounded: the carrier conversions themselves (numpy / pandas / dask behaviour) are checked by running the real functions on every carrier of concrete series and comparing with the canonical call", [T_GEOD, T_ROLL, T_STAT], bounded=["carrier conversion facts: 8 data carriers x 13 time carriers (datetime64 in ns / ms / s / m / h / D, datetimes, Timestamps, DatetimeIndex and Series naive and UTC, epoch numbers) on sampled concrete series (12 per test quick, 120 thorough) plus sub-second axes and irregular whole-minute / hour / day axes, flags compared with the canonical ndarray/datetime64[ns] call"]),
     "C16": _p("proof", "self-composition on the real code: each threshold-driven test is executed twice on one symbolic series with a loose and a strict parameter set; the two results are related at a Skolem index (never less severe; UNKNOWN/MISSING set unchanged). No functional specification is used", [T_GEOD, T_ROLL, T_STAT], assumptions=["climatology_test is not covered by the self-composition (its member loops would have to run in lock-step); for it monotonicity follows from the C08 fold postcondition only"]),
-    "C17": _p("proof", "self-composition on the real code: the function is executed on a series and on its transformed copy (x+c, -x, t+c, data and spans shifted together, reversed, changed at one symbolic position) and the two flag arrays are related at a Skolem index", [T_GEOD, T_ROLL, T_STAT], assumptions=["assumed invariance facts of the abstract statistics (not proved, they are properties of the library functions): std/ptp of the whole series are equal for x, x+c and -x; a rolling-window statistic, the window's count of present values and its NaN indicator are equal for the two runs at every row whose window does not contain the changed position (all rows for x+c, -x, t+c)", "climatology_test is not covered by the self-composition (sequential member loops); for it shift invariance and locality follow from the C08 fold postcondition only"]),
-    "C08": _p("proof", "climatology_test / ClimatologyConfig.check: the member loop is cut by the invariant flag[i] = F_j(i) (fold of the statement over the first j members); body proved for one arbitrary member of each of the 20 shapes (5 period kinds x zspan x fspan); calendar attributes uninterpreted", ["pandas DatetimeIndex calendar attributes (month, week, dayofyear ...): uninterpreted functions of the timestamp; Series[bool] & MaskedArray rule (pyvc/pdmodel.py), conformance-checked"], bounded=["ClimAddSpellings: absolute time spans in 8 spellings pandas.Timestamp accepts (ISO padded / unpadded, month names, US style, datetime, datetime64, Timestamp, mixed) x 4 date pairs x both orders x tuple / list on the real ClimatologyConfig.add and climatology_test (the deductive ClimAdd cases hand over datetime values; what pandas makes of a string is library behaviour)"]),
+    "C17": _p("proof", "self-composition on the real code: the function is executed on a series and on its transformed copy (x+c, -x, t+c, data and spans shifted together, reversed, changed at one symbolic position) and the two flag arrays are related at a Skolem index", [T_GEOD, T_ROLL, T_STAT], assumptions=["assumed invariance facts of the abstract statistics (not proved, they are properties of the library functions): std/ptp of the whole series are equal for x, x+c and -x; a rolling-window statistic, the window's count of present values and its NaN indicator are equal for the two runs at every row whose window does not contain the changed position (all rows for x+c, -x, t+c)", "climatology_test is not covered by the self-composition (sequential member loops); for it shift invariance and locality follow from the C08 fold postcondition and the bounded case below"], bounded=["ClimatologyShiftHistory: climatology_test with two members, stamps and absolute spans (and data and value spans) shifted together, the configuration list / tuple edited in place between the two calls or rebuilt: 2 x 2 x 4 shifts on the real function"]),
+    "C08": _p("proof", "climatology_test / ClimatologyConfig.check: the member loop is cut by the invariant flag[i] = F_j(i) (fold of the statement over the first j members); body proved for one arbitrary member of each of the 20 shapes (5 period kinds x zspan x fspan); calendar attributes uninterpreted", ["pandas DatetimeIndex calendar attributes (month, week, dayofyear ...): uninterpreted functions of the timestamp; Series[bool] & MaskedArray rule (pyvc/pdmodel.py), conformance-checked"], bounded=["ClimAddSpellings: absolute time spans in 8 spellings pandas.Timestamp accepts (ISO padded / unpadded, month names, US style, datetime, datetime64, Timestamp, mixed) x 4 date pairs x both orders x tuple / list, and 3 spans with bounds outside datetime64[ns] (years 1000, 3000, 9999) x 4 spellings x both orders x object / list layout, on the real ClimatologyConfig.add and climatology_test (the deductive ClimAdd cases hand over datetime values; what pandas makes of a string is library behaviour)"]),
     "C09": _p("proof", "spike_test: interior points by the statement's magnitude formula (both methods, thresholds present/absent), end points, ValueError on unknown method"),
     "C10": _p("proof", "rate_of_change_test and speed_test against rate = |dx| / whole elapsed seconds and geodesic speed; great_circle_distance verified against its contract and used through it", [T_GEOD]),
     "C11": _p("proof", "flat_line_test with its closures: window of floor(threshold/D)+1 points ending at k, range of present values < tolerance; min/max reductions as ground objects with cross-instantiated bounds", [T_STAT]),
